@@ -3,7 +3,8 @@
 (* Binds VFRead to the code.  For every seekable handle opened on an       *)
 (* undamaged file whose page table was logged, TLC runs the model of the   *)
 (* decode path next to the recorded calls - open, ov_read_float, ov_read,  *)
-(* ov_raw_seek, ov_pcm_seek, ov_pcm_seek_page - and compares after every   *)
+(* ov_raw_seek, ov_pcm_seek, ov_pcm_seek_page, ov_halfrate - and compares  *)
+(* after every                                                             *)
 (* call what the handle shows of itself: return value, pcm position,       *)
 (* ready state, current link and the raw offset the next page is looked    *)
 (* for at (StateAsModelled).  A call the model does not cover (time and    *)
@@ -34,33 +35,40 @@ TableOf(e) ==
          ws |-> IF audio THEN [x \in 1..Len(q.bl) |-> IF q.bl[x] = b1 THEN 1 ELSE 0] ELSE <<>>,
          k0 |-> 0, ours |-> FALSE]]
 FileOf(e) == [PG |-> TableOf(e), BL |-> [i \in 1..Len(e.lk) |-> <<e.lk[i].bs0, e.lk[i].bs1>>], CH |-> [i \in 1..Len(e.lk) |-> e.lk[i].ch],
+              lt |-> [i \in 1..Len(e.lk) |-> [off |-> e.lk[i].beg, ser |-> e.lk[i].ser, doff |-> e.lk[i].doff, first |-> 0, len |-> e.lk[i].N]],          \* for streaming handles: which serial number has which block sizes
               ok |-> ("ndmg" \notin DOMAIN e \/ e.ndmg = 0) /\ Len(e.pg) < 4000]
 Known(h) == h \in DOMAIN H /\ H[h].known
 \* (when the reader ran into the end of the file the raw offset stops up to 26 bytes short of it, depending on the bytes: not compared)
-Same(m, e, F) == m.ret = e.ret /\ m.vf.off = e.tell /\ m.vf.rs = e.rs /\ (m.vf.rs >= STREAMSET => m.vf.link - 1 = e.cur) /\ (m.vf.pos = e.off \/ m.vf.pos = DataEnd(F.PG))
+Same(m, e, F) == m.ret = e.ret /\ m.vf.off = e.tell /\ m.vf.rs = e.rs /\ (m.vf.rs >= STREAMSET => m.vf.link - 1 = e.cur) /\ (m.vf.pos = e.off \/ m.vf.pos = DataEnd(F.PG)) /\ m.vf.hs = e.hs
 Judge(m, e, F) == IF Same(m, e, F) THEN {} ELSE {"StateAsModelled"}
 Unknown == [known |-> FALSE]
 \* ov_read: the frames a buffer of len bytes holds in the link the decoder is in when the samples are there
 ReadInt(F, LT, vf, e) ==
-  LET r == Read(F.PG, LT, F.BL, vf, 1000000) IN          \* (the fetch part; how many samples are taken is decided below)
+  LET r == Read(F.PG, LT, F.BL, vf, 1000000)
+      chof(v) == F.CH[IF v.sk THEN v.link ELSE v.bl] IN          \* (the fetch part; how many samples are taken is decided below)
   IF r.ret <= 0 THEN r
-  ELSE LET frames == e.len \div (e.word * F.CH[r.dl.link])
+  ELSE LET frames == e.len \div (e.word * chof(r.vf))
            m == IF r.ret > frames THEN frames ELSE r.ret IN
        IF m <= 0 THEN [ret |-> OV_EINVAL, vf |-> [r.vf EXCEPT !.d = [@ EXCEPT !.ret = r.dl.j + r.vf.d.centerW], !.off = r.dl.t0], dl |-> NoDelivery]
-       ELSE [ret |-> m * e.word * F.CH[r.dl.link], vf |-> [r.vf EXCEPT !.d = [@ EXCEPT !.ret = r.dl.j + r.vf.d.centerW + m], !.off = r.dl.t0 + m], dl |-> r.dl]
+       ELSE [ret |-> m * e.word * chof(r.vf), vf |-> [r.vf EXCEPT !.d = [@ EXCEPT !.ret = r.dl.j + r.vf.d.centerW + m], !.off = r.dl.t0 + BK!ShlI(m, r.vf.hs)], dl |-> r.dl]
 Init == l = 1 /\ scn = 1 /\ files = <<>> /\ H = <<>> /\ ncmp = 0
-Handled == {"ReadF", "ReadI", "RawSeek", "PcmSeek", "PcmSeekPage"}
+Handled == {"ReadF", "ReadI", "RawSeek", "PcmSeek", "PcmSeekPage", "HalfRate"}
 Step(e) ==
   IF e.e = "Open" /\ e.mode = "seek" /\ e.init = 0 /\ e.ret = 0 /\ "tab" \in DOMAIN e /\ e.f \in DOMAIN files /\ files[e.f].ok /\ e.hs = 0
   THEN LET F == files[e.f]  m == Opened(F.PG, e.tab, F.BL) IN
        /\ Note(Judge(m, e, F), e, m)
        /\ H' = (e.h :> [known |-> Same(m, e, F), vf |-> m.vf, f |-> e.f, LT |-> e.tab]) @@ H /\ ncmp' = ncmp + 1
-  ELSE IF "h" \in DOMAIN e /\ Known(e.h) /\ e.e \in Handled /\ e.hs = 0
+  ELSE IF e.e = "Open" /\ e.mode = "stream" /\ e.init = 0 /\ e.ret = 0 /\ e.f \in DOMAIN files /\ files[e.f].ok /\ e.hs = 0
+  THEN LET F == files[e.f]  m == OpenedStreaming(F.PG, F.lt, F.BL) IN
+       /\ Note(Judge(m, e, F), e, m)
+       /\ H' = (e.h :> [known |-> Same(m, e, F), vf |-> m.vf, f |-> e.f, LT |-> F.lt]) @@ H /\ ncmp' = ncmp + 1
+  ELSE IF "h" \in DOMAIN e /\ Known(e.h) /\ e.e \in Handled /\ (e.e \in {"RawSeek", "PcmSeek", "PcmSeekPage", "HalfRate"} => H[e.h].vf.sk) /\ (e.e = "HalfRate" => e.ret = 0)
   THEN LET s == H[e.h]  F == files[s.f]
            m == CASE e.e = "ReadF" -> Read(F.PG, s.LT, F.BL, s.vf, e.len)
                   [] e.e = "ReadI" -> ReadInt(F, s.LT, s.vf, e)
                   [] e.e = "RawSeek" -> RawSeek(F.PG, s.LT, F.BL, s.vf, e.pos)
                   [] e.e = "PcmSeek" -> PcmSeek(F.PG, s.LT, F.BL, s.vf, e.pos, K)
+                  [] e.e = "HalfRate" -> HalfRate(F.PG, s.LT, F.BL, s.vf, e.flag, K)
                   [] OTHER -> PcmSeekPage(F.PG, s.LT, F.BL, s.vf, e.pos, K)
        IN /\ Note(Judge(m, e, F), e, m)
           /\ H' = [H EXCEPT ![e.h] = [@ EXCEPT !.known = Same(m, e, F), !.vf = m.vf]] /\ ncmp' = ncmp + 1
